@@ -152,6 +152,9 @@ func GenConfig(prop, tier string, seed uint64) Config {
 			c.KF = f
 		}
 	}
+	if prop == "C02" && c.KF != "" && r.Chance(0.3) {
+		c.KF = "stale-marker-commit-reorder"
+	}
 	switch prop {
 	case "C03":
 		c.Crash = true
